@@ -59,6 +59,8 @@ def check_c11(case, stats):
     data.X = np.round(data.X / step) * step
     data._c = {}
   prior = gen.spd_from_seed(d, case['aseed']) if case['prior'] == 'array' else case['prior']
+  if isinstance(prior, np.ndarray) and case['aseed'] % 3 == 0:
+    prior = np.asfortranarray(prior)        # memory layout is not part of the matrix
   gamma = 10.0 ** case['loggamma']
   params = dict(prior=prior, gamma=gamma, max_iter=case['max_iter'], tol=case['tol'], random_state=case['seed'] % 1000)
   if name == 'ITML':
